@@ -359,117 +359,60 @@ Qed.
 Theorem str_op_hex_sound mok s op data sep : str_inv s -> modify_post s op (hex_text data sep) (str_op_hex mok s op data sep).
 Proof. intros. unfold str_op_hex. apply str_op_text_sound. assumption. Qed.
 
-(* _op_vformat, given the text the format expands to: on success the content is the textbook result;
-   a refused allocation never changes the size or the bytes in front of the insertion point *)
+(* _op_vformat, given the text the format expands to: on success the content is the textbook result; a refused allocation
+   leaves a valid string with the same bytes, size, capacity and kind (cells behind the terminator may have been written) *)
 Theorem str_op_format_sound mok s op text : str_inv s ->
   let '(e, s') := str_op_format mok s op text in
   (e = SOk /\ str_inv s' /\ str_abs s' = text_of op (str_abs s) text) \/
-  (e = SOutOfMemory /\ s_size s' = s_size s /\ s_cap s' = s_cap s /\ s_kind s' = s_kind s /\
-   (op = OpAppend -> str_abs s' = str_abs s)).
+  (e = SOutOfMemory /\ str_inv s' /\ str_abs s' = str_abs s /\ s_size s' = s_size s /\ s_cap s' = s_cap s /\ s_kind s' = s_kind s).
 Proof.
   intros Hs. pose proof Hs as (S1 & S2 & S3 & S4). unfold str_op_format.
-  set (start := match op with OpAssign => 0 | OpAppend => s_size s end).
-  assert (Hstart : 0 <= start <= s_size s) by (unfold start; destruct op; lia).
   pose proof (zlength_nonneg text) as Ht0.
-  assert (Hmod : forall r, modify_post s op text r ->
+  assert (Hmod : forall s0 r, str_inv s0 -> str_abs s0 = str_abs s -> s_size s0 = s_size s -> s_cap s0 = s_cap s -> s_kind s0 = s_kind s ->
+            modify_post s0 op text r ->
             let '(e, s') := r in
             (e = SOk /\ str_inv s' /\ str_abs s' = text_of op (str_abs s) text) \/
-            (e = SOutOfMemory /\ s_size s' = s_size s /\ s_cap s' = s_cap s /\ s_kind s' = s_kind s /\ (op = OpAppend -> str_abs s' = str_abs s))).
-  { intros [e s'] [H|[-> ->]]; [left; exact H|right; repeat split; reflexivity]. }
-  destruct (Z.geb_spec (s_cap s - start) 128) as [Hbig|Hsmall].
-  - set (remaining := s_cap s - start) in *.
+            (e = SOutOfMemory /\ str_inv s' /\ str_abs s' = str_abs s /\ s_size s' = s_size s /\ s_cap s' = s_cap s /\ s_kind s' = s_kind s)).
+  { intros s0 [e s'] H0 Ha Hz Hc Hk [(-> & H1 & H2)|(-> & ->)]; [left; rewrite H2, Ha; auto|right; auto 10]. }
+  destruct op; cbn [andb].
+  - destruct (zlength text <? 1024).
+    + apply (Hmod s); auto. apply str_op_text_sound. exact Hs.
+    + apply (Hmod s); auto. apply str_modify_sound. exact Hs.
+  - destruct (Z.geb_spec (s_cap s - s_size s) 128) as [Hbig|Hsmall].
+    2:{ destruct (zlength text <? 1024).
+        + apply (Hmod s); auto. apply str_op_text_sound. exact Hs.
+        + apply (Hmod s); auto. apply str_modify_sound. exact Hs. }
+    set (start := s_size s) in *. set (remaining := s_cap s - start) in *.
     set (shown := zfirstn (Z.min (zlength text) remaining) text).
     assert (Hshown : zlength shown = Z.min (zlength text) remaining) by (unfold shown; apply zlength_zfirstn; lia).
-    rewrite buf_write_some by first [lia | (rewrite zlength_app, Hshown; change (zlength [0]) with 1; lia)].
-    set (b := zfirstn start (s_buf s) ++ (shown ++ [0]) ++ zskipn (start + zlength (shown ++ [0])) (s_buf s)).
-    assert (Hwb : buf_write (s_buf s) start (shown ++ [0]) = Some b)
+    assert (Hwb : buf_write (s_buf s) start (shown ++ [0]) =
+                  Some (zfirstn start (s_buf s) ++ (shown ++ [0]) ++ zskipn (start + zlength (shown ++ [0])) (s_buf s)))
       by (apply buf_write_some; [lia|rewrite zlength_app, Hshown; change (zlength [0]) with 1; lia]).
+    rewrite Hwb.
+    set (b := zfirstn start (s_buf s) ++ (shown ++ [0]) ++ zskipn (start + zlength (shown ++ [0])) (s_buf s)) in *.
     assert (Hblen : zlength b = s_cap s + 1) by (apply buf_write_inv in Hwb; lia).
+    assert (Hfront : zfirstn start b = zfirstn start (s_buf s)).
+    { unfold b. rewrite zfirstn_app_l by (rewrite zlength_zfirstn by lia; lia). apply zfirstn_zfirstn. lia. }
     destruct (Z.leb_spec (zlength text) remaining) as [Hfit|Hnofit].
-    + (* formatted in place *)
-      left. split; [reflexivity|].
+    + left. split; [reflexivity|].
       assert (Hsh : shown = text) by (unfold shown; rewrite Z.min_l by lia; apply zfirstn_all; lia).
       split.
       * unfold str_inv; cbn [s_size s_cap s_buf s_kind]. unfold remaining in *. split; [lia|]. split; [lia|]. split; [|exact S4].
         rewrite (znth_write_in _ _ _ _ _ Hwb) by (rewrite zlength_app, Hshown; change (zlength [0]) with 1; lia).
         rewrite znth_app_r by lia. rewrite Hshown, Z.min_l by lia.
         replace (start + zlength text - start - zlength text) with 0 by lia. reflexivity.
-      * unfold str_abs at 1; cbn [s_size s_buf]. unfold b. rewrite Hsh.
+      * unfold str_abs at 1; cbn [s_size s_buf text_of]. unfold b. rewrite Hsh.
         replace ((text ++ [0]) ++ zskipn (start + zlength (text ++ [0])) (s_buf s))
           with (text ++ [0] ++ zskipn (start + zlength (text ++ [0])) (s_buf s)) by (rewrite <- app_assoc; reflexivity).
         rewrite app_assoc.
         rewrite zfirstn_app_l by (rewrite zlength_app, zlength_zfirstn by lia; lia).
-        rewrite zfirstn_all by (rewrite zlength_app, zlength_zfirstn by lia; lia).
-        unfold start. destruct op; [reflexivity|]. reflexivity.
-    + (* does not fit: the buffer was scribbled over from `start`, then prepare + format again *)
-      set (s1 := mkstr (s_kind s) b (s_size s) (s_cap s)).
-      assert (Hfront : zfirstn start b = zfirstn start (s_buf s)).
-      { unfold b. rewrite zfirstn_app_l by (rewrite zlength_zfirstn by lia; lia). apply zfirstn_zfirstn. lia. }
-      (* prepare(op, len) on the scribbled string: for assign nothing of the old buffer is used; for append the first
-         `size` bytes are copied, and these are intact *)
-      unfold str_modify, str_modify_n.
-      assert (Hlen_gt : zlength text > s_cap s - start) by (unfold remaining in *; lia).
-      unfold str_prepare. destruct op; cbn [s_cap s_size s_buf s_kind s1].
-      * unfold start, remaining in *.
-        destruct (Z.gtb_spec (zlength text) (s_cap s)); [|lia].
-        destruct (zlength text >=? kMaxAllocSize); [right; repeat split; try reflexivity; discriminate|].
-        pose proof (align_up_ge (zlength text + 1) kMinAllocSize ltac:(reflexivity)) as Hal.
-        set (ncap1 := align_up (zlength text + 1) kMinAllocSize) in *.
-        destruct (mok ncap1); [|right; repeat split; try reflexivity; discriminate].
-        assert (Hfl : zlength (fresh_buf ncap1) = ncap1) by (apply zlength_fresh; lia).
-        destruct (set_nul_spec (fresh_buf ncap1) (zlength text) ltac:(lia)) as (b2 & -> & Hl2 & Hn2 & Hp2).
-        cbn [s_buf s_kind s_size s_cap].
-        rewrite buf_write_some by lia. left. split; [reflexivity|]. split.
-        -- unfold str_inv; cbn [s_size s_cap s_buf s_kind]. split; [lia|]. split.
-           ++ rewrite !zlength_app, zlength_zfirstn, zlength_zskipn by lia. lia.
-           ++ split; [|discriminate].
-              rewrite znth_app_r by (rewrite zlength_zfirstn by lia; lia). rewrite zlength_zfirstn by lia.
-              rewrite znth_app_r by lia. rewrite znth_zskipn by lia.
-              replace (0 + zlength text + (zlength text - 0 - zlength text)) with (zlength text) by lia. exact Hn2.
-        -- unfold str_abs; cbn [s_size s_buf text_of]. rewrite zfirstn_0. cbn [app].
-           rewrite zfirstn_app_l by lia. apply zfirstn_all. lia.
-      * unfold start, remaining in *.
-        destruct (zlength text >=? kMaxAllocSize - s_size s - 1);
-          [right; repeat split; try reflexivity; intros _; unfold str_abs; cbn [s_size s_buf]; exact Hfront|].
-        destruct (Z.gtb_spec (zlength text + s_size s) (s_cap s)); [|lia].
-        set (ncap1 := grow_capacity (zlength text + 1) (zlength text + s_size s + 1)).
-        destruct (Z.ltb_spec ncap1 (zlength text + s_size s + 1));
-          [right; repeat split; try reflexivity; intros _; unfold str_abs; cbn [s_size s_buf]; exact Hfront|].
-        destruct (mok ncap1);
-          [|right; repeat split; try reflexivity; intros _; unfold str_abs; cbn [s_size s_buf]; exact Hfront].
-        rewrite buf_read_some by lia. rewrite zskipn_0. rewrite Hfront. fold (str_abs s).
-        assert (Habs : zlength (str_abs s) = s_size s) by (apply str_abs_len; exact Hs).
-        assert (Hfl : zlength (fresh_buf ncap1) = ncap1) by (apply zlength_fresh; lia).
-        rewrite buf_write_some by lia. rewrite zfirstn_0. cbn [app].
-        set (b1 := str_abs s ++ zskipn (0 + zlength (str_abs s)) (fresh_buf ncap1)).
-        assert (Hb1 : zlength b1 = ncap1) by (unfold b1; rewrite zlength_app, zlength_zskipn by lia; lia).
-        destruct (set_nul_spec b1 (zlength text + s_size s) ltac:(lia)) as (b2 & -> & Hl2 & Hn2 & Hp2).
-        cbn [s_buf s_kind s_size s_cap].
-        assert (Hw2 : buf_write b2 (s_size s) text = Some (zfirstn (s_size s) b2 ++ text ++ zskipn (s_size s + zlength text) b2))
-          by (apply buf_write_some; lia).
-        rewrite Hw2. left. split; [reflexivity|]. split.
-        -- unfold str_inv; cbn [s_size s_cap s_buf s_kind]. split; [lia|]. split.
-           ++ apply buf_write_inv in Hw2. lia.
-           ++ split; [|discriminate]. rewrite (znth_write_out _ _ _ _ _ Hw2) by lia. exact Hn2.
-        -- unfold str_abs at 1; cbn [s_size s_buf].
-           replace (zlength text + s_size s) with (s_size s + zlength text) by lia.
-           rewrite write_prefix by lia.
-           rewrite <- (zfirstn_zfirstn (s_size s) (zlength text + s_size s)) by lia. rewrite Hp2.
-           rewrite zfirstn_zfirstn by lia. unfold b1. rewrite zfirstn_app_l by lia. rewrite zfirstn_all by lia. reflexivity.
-  - destruct (zlength text <? 1024).
-    + apply Hmod. apply str_op_text_sound. exact Hs.
-    + apply Hmod. apply str_modify_sound. exact Hs.
-Qed.
-
-(* what the pinned code does when the second allocation of the in-place path is refused: the terminator is gone.
-   (statement about the model; the check exhibits the same on the implementation with a refused allocation) *)
-Theorem str_format_failure_loses_terminator_refuted :
-  exists mok s text, str_inv s /\ fst (str_op_format mok s OpAppend text) = SOutOfMemory /\
-                     str_nul_ok (snd (str_op_format mok s OpAppend text)) = false.
-Proof.
-  exists (fun _ => false), (str_tmp 200), (zrepeat 65 300).
-  split; [|split; vm_compute; reflexivity].
-  unfold str_inv. vm_compute. repeat split; try discriminate; intros; discriminate.
+        rewrite zfirstn_all by (rewrite zlength_app, zlength_zfirstn by lia; lia). reflexivity.
+    + destruct (set_nul_spec b start ltac:(lia)) as (b1 & -> & Hl1 & Hn1 & Hp1).
+      apply (Hmod (mkstr (s_kind s) b1 (s_size s) (s_cap s))); try reflexivity.
+      * unfold str_inv; cbn [s_size s_cap s_buf s_kind]. split; [lia|]. split; [lia|]. split; [exact Hn1|exact S4].
+      * unfold str_abs; cbn [s_size s_buf]. fold start. rewrite Hp1. exact Hfront.
+      * apply str_modify_sound.
+        unfold str_inv; cbn [s_size s_cap s_buf s_kind]. split; [lia|]. split; [lia|]. split; [exact Hn1|exact S4].
 Qed.
 
 (* ------------------------------------------------------------------ every operation sequence *)
@@ -515,22 +458,21 @@ Lemma str_inv_empty : str_inv str_empty.
 Proof. unfold str_inv, str_empty. vm_compute. repeat split; intros; discriminate. Qed.
 
 (* one operation: on kOk the invariant holds and the content is the textbook result; a refused operation (out of memory,
-   bad base) leaves the string exactly as it was — except a format whose SECOND allocation is refused (see
-   str_format_failure_loses_terminator_refuted), which keeps size and capacity only *)
+   bad base) leaves a valid string with exactly the same bytes (for everything but a format even the same cells) *)
 Theorem sstep_refines mok s l o : str_inv s -> str_abs s = l ->
   let '(e, s') := sstep mok s o in
   (e = SOk /\ str_inv s' /\ str_abs s' = tstep l o) \/
-  ((e = SOutOfMemory \/ e = SInvalidArgument) /\ (is_format o = false -> s' = s) /\ s_size s' = s_size s).
+  ((e = SOutOfMemory \/ e = SInvalidArgument) /\ str_inv s' /\ str_abs s' = l /\ (is_format o = false -> s' = s) /\ s_size s' = s_size s).
 Proof.
   intros Hs Habs.
   assert (Hmod : forall op text r, modify_post s op text r ->
             let '(e, s') := r in
             (e = SOk /\ str_inv s' /\ str_abs s' = text_of op l text) \/
-            ((e = SOutOfMemory \/ e = SInvalidArgument) /\ (false = false -> s' = s) /\ s_size s' = s_size s)).
-  { intros op text [e s'] [(-> & H1 & H2)|(-> & ->)]; [left; rewrite H2, Habs; auto|right; auto]. }
+            ((e = SOutOfMemory \/ e = SInvalidArgument) /\ str_inv s' /\ str_abs s' = l /\ (false = false -> s' = s) /\ s_size s' = s_size s)).
+  { intros op text [e s'] [(-> & H1 & H2)|(-> & ->)]; [left; rewrite H2, Habs; auto|right; auto 10]. }
   destruct o; cbn [sstep tstep is_format].
   - pose proof (str_assign_sound mok s text Hs) as Hq. destruct (str_assign mok s text) as [e s'].
-    destruct Hq as [H|(-> & ->)]; [left; exact H|right; auto].
+    destruct Hq as [Hq|(-> & ->)]; [left; exact Hq|right; auto 10].
   - apply (Hmod op text). apply str_op_text_sound. exact Hs.
   - apply (Hmod op [c]). apply str_op_char_sound. exact Hs.
   - destruct (Z.leb_spec 0 n); [|left; auto]. apply (Hmod op (zrepeat c n)). apply str_op_chars_sound; assumption.
@@ -542,11 +484,11 @@ Proof.
   - pose proof (str_op_number_sound mok s op i base width flags Hs) as Hq.
     destruct (number_text i base width flags) as [t|].
     + apply (Hmod op t). exact Hq.
-    + rewrite Hq. right. auto.
+    + rewrite Hq. right. auto 10.
   - apply (Hmod op (hex_text data sep)). apply str_op_hex_sound. exact Hs.
   - pose proof (str_op_format_sound mok s op text Hs) as Hq. destruct (str_op_format mok s op text) as [e s'].
-    destruct Hq as [(-> & H1 & H2)|(-> & H1 & _)]; [left; rewrite H2, Habs; auto|right].
-    split; [left; reflexivity|]. split; [discriminate|exact H1].
+    destruct Hq as [(-> & H1 & H2)|(-> & H1 & H2 & H3 & _)]; [left; rewrite H2, Habs; auto|right].
+    split; [left; reflexivity|]. split; [exact H1|]. split; [rewrite H2; exact Habs|]. split; [discriminate|exact H3].
   - destruct (Z.leb_spec 0 n); [|left; auto].
     destruct (str_truncate_sound s n Hs ltac:(lia)) as (He & Hi & Ha). destruct (str_truncate s n) as [e s']. cbn [fst snd] in *.
     left. rewrite Ha, Habs. auto.
@@ -554,27 +496,26 @@ Proof.
   - left. split; [reflexivity|]. split; [apply str_inv_empty|reflexivity].
 Qed.
 
-(* a whole script; None = a format operation hit a refused second allocation (the one situation with unspecified content) *)
-Fixpoint srun (mok : Z -> bool) (s : str) (l : list Z) (ops : list strop) : option (str * list Z) :=
+(* a whole script: whatever the operations and whichever allocations are refused, the string is valid and holds the
+   textbook bytes *)
+Fixpoint srun (mok : Z -> bool) (s : str) (l : list Z) (ops : list strop) : str * list Z :=
   match ops with
-  | [] => Some (s, l)
+  | [] => (s, l)
   | o :: r =>
     let '(e, s') := sstep mok s o in
     match e with
     | SOk => srun mok s' (tstep l o) r
-    | _ => if is_format o then None else srun mok s' l r
+    | _ => srun mok s' l r
     end
   end.
 
-Theorem srun_refines mok ops : forall s l s' l', str_inv s -> str_abs s = l -> srun mok s l ops = Some (s', l') ->
-  str_inv s' /\ str_abs s' = l'.
+Theorem srun_refines mok ops : forall s l, str_inv s -> str_abs s = l ->
+  str_inv (fst (srun mok s l ops)) /\ str_abs (fst (srun mok s l ops)) = snd (srun mok s l ops).
 Proof.
-  induction ops as [|o r IH]; intros s l s' l' Hs Habs Hrun; cbn [srun] in Hrun.
-  - inversion Hrun; subst. auto.
-  - pose proof (sstep_refines mok s l o Hs Habs) as Hq. destruct (sstep mok s o) as [e s1].
-    destruct Hq as [(-> & H1 & H2)|(He & Hsame & _)].
-    + eapply IH; eauto.
-    + destruct (is_format o) eqn:Ef.
-      * destruct He as [-> | ->]; discriminate.
-      * specialize (Hsame eq_refl). subst s1. destruct He as [-> | ->]; eapply IH; eauto.
+  induction ops as [|o r IH]; intros s l Hs Habs; cbn [srun].
+  - auto.
+  - pose proof (sstep_refines mok s l o Hs Habs) as H. destruct (sstep mok s o) as [e s1].
+    destruct H as [(-> & H1 & H2)|(He & H1 & H2 & _)].
+    + apply IH; auto.
+    + destruct He as [-> | ->]; apply IH; auto.
 Qed.
